@@ -578,6 +578,9 @@ func (u *Unit) checkReturn(f *Frame, rst *State, rets []Val) {
 						bad = !covers(e.pats, pm)
 					} else {
 						for _, hp := range e.pats {
+							if hp.exact != "" && e.localOnly[hp.exact] {
+								continue // written only in variables of this invocation: no pre-existing object is touched
+							}
 							if overlaps(hp, pm) {
 								// a wildcard in the unit's own list is decided class by class in 1. when every class it
 								// forgets is known; an unknown class under a forgotten prefix is not
@@ -592,7 +595,10 @@ func (u *Unit) checkReturn(f *Frame, rst *State, rets []Val) {
 					}
 					if bad && !reported[name] {
 						reported[name] = true
-						u.addObl(rst, "frame", "preserves:callee-forgets:"+name, False, nil).Text = "a callee on the way does not promise to preserve " + name
+						u.addObl(rst, "frame", "preserves:callee-forgets:"+name, False, nil).Text = "a callee on the way (" + e.why + ") does not promise to preserve " + name
+						if os.Getenv("VERIF_DEBUG") != "" {
+							fmt.Fprintf(os.Stderr, "frame-debug %s: %s forgets %s (event all=%v pats=%v)\n", u.name, e.why, name, e.all, e.pats)
+						}
 					}
 				}
 				g = e.prev
